@@ -110,6 +110,7 @@ type World struct {
 	A, B, C *node.Wallet
 	Split   []splitOut
 	P, M, N []*ledger.Block // common prefix and the two lineages (both start with P)
+	competitor []*ledger.Block // same-height competitor of the host's chain (placements)
 
 	served        atomic.Pointer[[]*ledger.Block]
 	getBlocksHook atomic.Pointer[func()]
